@@ -13,7 +13,7 @@ def common(pkg):
 class P(vlib.Prop):
     pid = "C10"
     coq_dirs = ["Common", "C10", "Generated"]
-    coq_targets = ["C10/Properties.vo", "C10/Witness.vo", "C10/Harness.vo"]
+    coq_targets = ["C10/Properties.vo", "C10/Witness.vo", "C10/Harness.vo", "C10/KindDiff.vo"]
     properties_module = "C10.Properties"
     properties_file = "C10/Properties.v"
     instance_obligations = []
@@ -39,7 +39,7 @@ class P(vlib.Prop):
         vlib.Harness("shared", "internal/sharedcomponent", ".", {"zz_verif_c10_test.go": "C10/shared_test.go"},
                      "^TestVerifC10Shared$", "sharedcomponent"),
     ]
-    rule = ("graph (kind 0): generated pipeline topologies (1-4 pipelines over 3 signals, shared receivers/exporters, "
+    rule = ("graph (kind 0): generated pipeline topologies (1-4 pipelines over 4 signals incl. profiles, shared receivers/exporters, "
             "same processor ID in several pipelines, 0-2 connectors) built with the real graph.Build; per topology a run "
             "without failure, EVERY single component Start failure, EVERY single Shutdown failure and 4 random "
             "multi-failure assignments through Graph.StartAll + ShutdownAll (fresh graph per run). "
@@ -72,6 +72,80 @@ class P(vlib.Prop):
         "Start/Shutdown calls of one service are sequential (the collector drives them from one goroutine); sync.Once behaves as documented",
         "telemetry-provider shutdown, status reporting (C11) and zpages registration are outside the model",
     ]
+
+    CLAUSES = {1: "count", 2: "start-order", 3: "stop-order", 4: "extensions-first", 5: "extensions-last",
+               6: "extension-dependencies", 7: "start-failure-aborts", 8: "shutdown-failure-reported"}
+
+    def extra_checks(self, ctx):
+        """Failing-input search / independent oracle: the decidable clause checker prop_ok (Checker.v, proved to
+        decide the clauses: prop_ok_iff) is evaluated inside Coq on the OBSERVED behaviour of EVERY case.  A case on
+        which a clause fails is a concrete failing input (oracle kind coq-clause-<clause>), whether or not the model
+        disagrees on it."""
+        if not ctx.cases:
+            return
+        terms = [c["term"] for c in ctx.cases]
+        failed = self.eval_on_compiled_shards(ctx, "prop_case")
+        if failed is None:   # the shards of the correspondence pass are not there (it broke): evaluate from the terms
+            failed = vlib.coq_eval_cases(ctx, self.harness_module, "prop_case", self.case_type, terms, shard=self.shard)
+        ctx.extra_coverage["clause_checker"] = {"cases": len(terms), "violating": len(failed)}
+        seen = set()
+        for i in failed[:200]:
+            if len(seen) >= 8:
+                break
+            which = vlib.coq_eval_term(ctx, self.harness_module, "prop_violated %s" % terms[i]) if len(terms[i]) < 20000 else ""
+            ids = [int(x) for x in __import__("re").findall(r"\d+", which.split("=", 1)[1].split(":")[0])] if "=" in which else []
+            name = "+".join(self.CLAUSES.get(k, str(k)) for k in sorted(set(ids))) or "clause"
+            if name in seen:
+                continue
+            seen.add(name)
+            ctx.oracle.append({"kind": "coq-clause-" + name, "term": terms[i], "harness": ctx.cases[i]["harness"],
+                               "detail": "the clause checker prop_ok (Coq, decides the property's clauses) rejects the OBSERVED behaviour: violated clause(s) %s" % name})
+        # obligation over the translated table broken: name the argument on which the two definitions differ
+        if any("Proofs8" in d or "Proofs8" in w for w, d in ctx.broken):
+            try:
+                vlib.coq_make(ctx, ["C10/KindDiff.vo"])   # proof-free, depends only on Model + the regenerated table
+            except vlib.Broken:
+                pass
+            diff = vlib.coq_eval_term(ctx, "C10.KindDiff", "kind_diff")
+            ctx.log("translated table: model and generated method sets differ on node type(s)", diff)
+            ctx.notes.append("kind_is_comp_generated broken; node types on which the model's table and the generated method sets differ "
+                             "(0 receiver 1 processor 2 exporter 3 connector 4 capabilities 5 fanOut): " + diff)
+            ctx.broken.append(("translated table differs on node type(s) " + diff, ""))
+
+    def eval_on_compiled_shards(self, ctx, fn):
+        """Second pass over the cases without re-parsing them: the correspondence pass left work/C10/Cases_k.vo
+        (each defines `cases`); load them and evaluate `bad fn cases`.  Returns the failing case indices, or None."""
+        import concurrent.futures, re, time
+        n = (len(ctx.cases) + self.shard - 1) // self.shard
+        vos = [os.path.join(ctx.work, "Cases_%d.vo" % k) for k in range(n)]
+        if not all(os.path.exists(v) and os.path.getmtime(v) >= ctx.t0 for v in vos):
+            return None
+        t0 = time.time()
+
+        def one(k):
+            vf = os.path.join(ctx.work, "Prop_%d.v" % k)
+            with open(vf, "w") as f:
+                f.write("From Verif Require Import Common.Base %s.\nRequire Import Cases_%d.\n" % (self.harness_module, k))
+                f.write("Definition M := Eval vm_compute in (bad %s Cases_%d.cases).\n" % (fn, k))
+                f.write('Goal True. idtac "@@BEGIN". Abort.\nPrint M.\nGoal True. idtac "@@END". Abort.\n')
+            cmd = ["coqc", "-Q", vlib.COQ, "Verif", "-Q", ctx.work, "", "-w", "-all", "-o", vf + "o", vf]
+            rc, out = vlib.run(cmd, cwd=ctx.work, timeout=900)
+            if rc != 0:   # once more (a coqc killed by the system under memory pressure)
+                rc, out = vlib.run(cmd, cwd=ctx.work, timeout=900)
+            return k, rc, out
+
+        failed = []
+        with concurrent.futures.ThreadPoolExecutor(max_workers=vlib.NPROC) as ex:
+            for k, rc, out in ex.map(one, range(n)):
+                m = re.search(r"@@BEGIN\s*(.*?)@@END", out, re.S)
+                if rc != 0 or not m:
+                    return None
+                body = m.group(1)
+                body = body.split("=", 1)[1] if "=" in body else body
+                body = body.split(": list nat")[0]
+                failed += [int(x) for x in re.findall(r"\d+", body)]
+        ctx.coq_eval_s += time.time() - t0
+        return sorted(failed)
 
     def translate(self, ctx):
         # translator T1: method sets of the graph's node types, read from the current source
